@@ -93,10 +93,15 @@ def run_harness(ctx, tier, flags, shards):
     if not ok:
         return None
     summaries, fails = [], []
-    for f in files:
-        rc, out, dt = vlib.sh([vlib.DRIVER, f], timeout=2400)
+    dprocs = [subprocess.Popen([vlib.DRIVER, f], stdout=subprocess.PIPE, stderr=subprocess.STDOUT, text=True, errors="replace") for f in files]
+    for f, p in zip(files, dprocs):
+        try:
+            out, _ = p.communicate(timeout=2400)
+        except subprocess.TimeoutExpired:
+            p.kill()
+            out = "[timeout]"
         summ = vlib.parse_summary(out).get("WIRE")
-        if rc != 0 or summ is None:
+        if p.returncode != 0 or summ is None:
             ctx.broken.append({"kind": "correspondence", "what": f"driver failed on {os.path.basename(f)}", "detail": out[-800:]})
             return None
         summaries.append(summ)
@@ -182,6 +187,9 @@ def run(ctx):
             ctx.broken.append({"kind": "correspondence", "what": "the wire model (following the generated tables) and the implementation disagree",
                                "first": corr_lines[0][:1500], "count": len(corr_lines)})
         seen = set()
+        # the most telling failing input first: a complete exchange, then a serialisation, then the rest
+        rank = lambda f: 0 if "case=WHTTP" in f else 1 if "case=WSER" in f else 2
+        mon_lines.sort(key=rank)
         for f in mon_lines + known_lines:
             key = classify(f)
             if key["kind"] in seen:
